@@ -96,6 +96,7 @@ Lemma core_set_hb_env v s : same_core s (set_hb_env v s). Proof. core. Qed.
 Lemma core_set_hb_bound v s : same_core s (set_hb_bound v s). Proof. core. Qed.
 Lemma core_set_driver_active v s : same_core s (set_driver_active v s). Proof. core. Qed.
 Lemma core_set_close_sent v s : same_core s (set_close_sent v s). Proof. core. Qed.
+Lemma core_set_ring_full v s : same_core s (set_ring_full v s). Proof. core. Qed.
 
 Ltac inv_split := unfold inv; split; [|split; [|split; [|split]]].
 
@@ -129,7 +130,7 @@ Proof. intros (_ & _ & I3 & _) H Hk. destruct (closed s) eqn:E; auto. rewrite (I
 Lemma entry_ok_new t a1 a2 a3 : entry_ok (new_entry t a1 a2 a3).
 Proof. split; cbn; intros; congruence. Qed.
 Lemma entry_ok_set_error c e : entry_ok e -> entry_ok (set_error c e).
-Proof. intros [A B]. split; cbn; [congruence|auto]. Qed.
+Proof. intros [A B]. unfold set_error. destruct (e_status e) eqn:E; split; cbn; try congruence; auto. Qed.
 Lemma entry_ok_set_status_reg e : entry_ok e -> entry_ok (set_status Registered e).
 Proof. intros [A B]. split; cbn; [congruence|auto]. Qed.
 Lemma entry_ok_set_ready d1 d2 d3 d4 o e :
@@ -154,7 +155,8 @@ Proof. intros (I1 & _). apply I1. Qed.
 
 Lemma do_add_inv k a1 a2 a3 s : inv s -> inv (fst (do_add k a1 a2 a3 s)).
 Proof. intros I. unfold do_add. destruct (negb (driver_active s)); [exact I|].
-  destruct (closed s) eqn:Ec; [exact I|]. dmatch; [exact I|]. cbn [fst].
+  destruct (closed s) eqn:Ec; [exact I|]. dmatch; [exact I|].
+  destruct (ring_full s); cbn [fst]; [apply inv_set_next_corr; [lia|exact I]|].
   apply inv_setm.
   - rewrite getm_set_next_corr. cbn [next_corr set_next_corr].
     apply map_ok_ins; [lia|apply entry_ok_new|]. eapply map_ok_mono; [|apply inv_map_ok; exact I]. lia.
@@ -187,6 +189,7 @@ Proof. intros I. unfold do_find. destruct (closed s); [exact I|].
       * cbn [fst]. eapply (inv_upd_entry (set_next_h (next_h s + 1) s) KPub); [apply Hnh|rewrite getm_set_next_h; exact El|].
         intros _. apply entry_ok_set_obj_reg; auto.
       * cbn [fst]. apply inv_remove_entry; auto.
+      * exact I.
   - (* KXPub *) destruct (e_obj e) as [o|] eqn:Eo.
     + destruct (o_user o); [exact I|]. cbn [fst].
       eapply (inv_upd_entry (set_next_h (next_h s + 1) s) KXPub); [apply Hnh|rewrite getm_set_next_h; exact El|].
@@ -196,6 +199,7 @@ Proof. intros I. unfold do_find. destruct (closed s); [exact I|].
       * cbn [fst]. eapply (inv_upd_entry (set_next_h (next_h s + 1) s) KXPub); [apply Hnh|rewrite getm_set_next_h; exact El|].
         intros _. apply entry_ok_set_obj_reg; auto.
       * cbn [fst]. apply inv_remove_entry; auto.
+      * exact I.
   - (* KSub *) destruct (e_obj e) as [o|] eqn:Eo.
     + destruct (o_user o); [exact I|]. cbn [fst].
       eapply (inv_upd_entry (set_next_h (next_h s + 1) s) KSub); [apply Hnh|rewrite getm_set_next_h; exact El|].
@@ -204,6 +208,7 @@ Proof. intros I. unfold do_find. destruct (closed s); [exact I|].
       * destruct (timed_out c s e); exact I.
       * exact I.
       * cbn [fst]. apply inv_remove_entry; auto.
+      * exact I.
   - (* KCtr *) destruct (e_obj e) as [o|] eqn:Eo.
     + destruct (o_user o); [exact I|]. cbn [fst].
       eapply (inv_upd_entry (set_next_h (next_h s + 1) s) KCtr); [apply Hnh|rewrite getm_set_next_h; exact El|].
@@ -212,20 +217,26 @@ Proof. intros I. unfold do_find. destruct (closed s); [exact I|].
       * destruct (timed_out c s e); exact I.
       * exact I.
       * cbn [fst]. apply inv_remove_entry; auto.
-  - (* KDest *) destruct (e_status e); [destruct (timed_out c s e)| |]; exact I. Qed.
+      * exact I.
+  - (* KDest *) destruct (e_status e); [destruct (timed_out c s e)| | |]; exact I. Qed.
 
 Lemma do_release_inv k r imgs s : inv s -> inv (fst (do_release k r imgs s)).
-Proof. intros I. unfold do_release. destruct (lookup r (getm k s)); [|exact I]. cbn [fst].
-  apply inv_setm.
-  - rewrite getm_set_next_corr. cbn [next_corr set_next_corr]. apply map_ok_remove.
-    eapply map_ok_mono; [|apply inv_map_ok; exact I]. lia.
-  - intros Hc Hk. cbn in Hc. rewrite getm_set_next_corr. destruct I as (_ & _ & I3 & _). rewrite (I3 Hc k Hk). reflexivity.
-  - apply inv_set_next_corr; [lia|exact I]. Qed.
+Proof. intros I. unfold do_release. destruct (lookup r (getm k s)) as [e0|] eqn:El0; [|exact I].
+  assert (Hrem : inv (setm k (remove r (getm k (set_next_corr (next_corr s + 1) s))) (set_next_corr (next_corr s + 1) s))).
+  { apply inv_setm.
+    - rewrite getm_set_next_corr. cbn [next_corr set_next_corr]. apply map_ok_remove.
+      eapply map_ok_mono; [|apply inv_map_ok; exact I]. lia.
+    - intros Hc Hk. cbn in Hc. rewrite getm_set_next_corr. destruct I as (_ & _ & I3 & _). rewrite (I3 Hc k Hk). reflexivity.
+    - apply inv_set_next_corr; [lia|exact I]. }
+  assert (Hdead : inv (setm k (upd r (fun e => set_obj None (set_status Dropped e)) (getm k (set_next_corr (next_corr s + 1) s))) (set_next_corr (next_corr s + 1) s))).
+  { apply (inv_upd_entry (set_next_corr (next_corr s + 1) s) k r e0); [apply inv_set_next_corr; [lia|exact I]|rewrite getm_set_next_corr; exact El0|].
+    intros [A B]. split; cbn; intros; congruence. }
+  destruct (ring_full s); [destruct k|]; cbn [fst]; try exact Hrem; try exact Hdead. Qed.
 
 Lemma do_release_closed k r imgs s : closed (fst (do_release k r imgs s)) = closed s.
-Proof. unfold do_release. destruct (lookup r (getm k s)); auto. cbn [fst]. rewrite setm_closed. reflexivity. Qed.
+Proof. unfold do_release. destruct (lookup r (getm k s)); auto. destruct (ring_full s); [destruct k|]; cbn [fst]; rewrite ?setm_closed; reflexivity. Qed.
 Lemma do_release_orphans k r imgs s : orphans (fst (do_release k r imgs s)) = orphans s.
-Proof. unfold do_release. destruct (lookup r (getm k s)); auto. cbn [fst]. rewrite setm_orphans. reflexivity. Qed.
+Proof. unfold do_release. destruct (lookup r (getm k s)); auto. destruct (ring_full s); [destruct k|]; cbn [fst]; rewrite ?setm_orphans; reflexivity. Qed.
 
 Lemma dtor_user_inv k r o s : inv s -> inv (fst (dtor_user k r o s)).
 Proof. intros I. unfold dtor_user. destruct k; try apply do_release_inv; auto;
@@ -376,6 +387,7 @@ Proof. intros I. destruct o; cbn [step].
   - cbn [fst]. eapply inv_same_core; [apply core_set_now|exact I].
   - cbn [fst]. eapply inv_same_core; [apply core_set_driver_hb|exact I].
   - cbn [fst]. eapply inv_same_core; [apply core_set_hb_env|exact I].
+  - cbn [fst]. eapply inv_same_core; [apply core_set_ring_full|exact I].
   - apply do_work_inv; auto. Qed.
 
 Lemma init_inv c0 now0 : inv (init c0 now0).
